@@ -25,14 +25,6 @@ Proof.
   pose proof (c02_obs_live post m err x) as H. rewrite E in H. exact H.
 Qed.
 
-Lemma retry_fold_live : forall cfg post e o m0 m3, m_live (fst (retry_fold cfg post e o m0 m3)) = m_live m3.
-Proof.
-  intros cfg post e o m0 m3. unfold retry_fold. cbv zeta.
-  match goal with |- m_live (fst (fold_left ?g o ?a)) = _ => apply (fold_left_pres (fun acc => m_live (fst acc) = m_live m3) g o) end; [|reflexivity].
-  intros [m err] x H. cbn [fst] in *. destruct x; try exact H. destruct d; try exact H.
-  destruct (find _ _) as [[c' w]|]; [|exact H]. destruct (find_dworker _ _ _) as [k|]; [|exact H]. destruct (dw_task k); exact H.
-Qed.
-
 Lemma mon_event_live : forall e m, m_live (mon_event e m) = if is_start e then ev_call e :: m_live m else m_live m.
 Proof.
   intros e m. destruct e; cbn; try reflexivity.
@@ -42,7 +34,7 @@ Qed.
 
 Lemma pm_final_live : forall cfg pre d e o m, m_live (pm_final cfg pre d e o m) = live_after e o (m_live m).
 Proof.
-  intros cfg pre d e o m. unfold pm_final. rewrite retry_fold_live. rewrite pm_clear_eq. cbn [m_live set]. unfold pm3. rewrite c02_fold_live. unfold live_after. f_equal.
+  intros cfg pre d e o m. destruct (pm_final_frame cfg pre d e o m) as [_ [_ [_ [_ [E _]]]]]. cbv zeta in E. rewrite E. unfold pm3. rewrite c02_fold_live. unfold live_after. f_equal.
   unfold pm2. cbn [m_live set]. unfold pm1. cbv zeta.
   assert (H : m_live (mon_event e m) = if is_start e then ev_call e :: m_live m else m_live m) by apply mon_event_live.
   destruct e; try exact H. destruct (existsb _ o); [|exact H]. destruct (x_sel a) as [[[? ?] ?] l]. exact H.
